@@ -73,11 +73,14 @@ def subs_unsub(tier):
 
 def stop_race(tier, pol="block", variant=0):
     """dispatchers racing one stopper; dispatch after the stop; a direct and a channeled subscriber"""
-    stops = [[O("stop")], [O("close"), O("stop")], [O("stop"), O("stop")], [O("drop_store")]][variant]
+    stops = [[O("stop")], [O("close"), O("stop")], [O("stop"), O("stop")], [O("drop_store")],
+             [O("close"), O("drop_store")], [O("drop_store")]][variant]
     rs = {"r1": {0: red("D"), 1: red("D", eff("task"))}}
     progs = [{"c1": [S("subscribed", "s1"), D(1, "impl"), D(2, "trait")],
               "c2": stops + [D(3, "impl"), O("get_state"), O("metrics")]}]
-    if tier != "quick":
+    if variant == 5:          # a second handle stops the store while the droppable one is dropped
+        progs[0]["c3"] = [O("stop"), O("get_state")]
+    elif tier != "quick":
         progs[0]["c3"] = [D(4, "store")]
     acts = {1: 0, 2: 1, 3: 0, 4: 0}
     return _i("stop_%s_v%d" % (pol, variant), progs, acts, cap=1, pol=pol, red_script=rs, max_tasks=1,
@@ -106,15 +109,17 @@ def readers(tier):
     progs = [{"c1": [D(1), D(2)] + ([D(3)] if tier != "quick" else []) + STOP,
               "c2": [S("add_sub", "s1"), O("get_state"), O("get_state")],
               "c3": [O("get_state"), O("get_state")]}]
-    return _i("read", progs, {1: 0, 2: 0, 3: 0}, cap=2, subs={"s1": {"kind": "direct"}}, mws=("m1",))
+    return _i("read", progs, {1: 0, 2: 0, 3: 0}, cap=2, subs={"s1": {"kind": "direct"}}, mws=("m1",),
+              reducers=("r1", "r2"))
 
 
 def life(tier, kind="direct", pol="block"):
     """subscribe / unsubscribe (twice) racing dispatches and a stop"""
     reg = {"direct": "add_sub", "sel": "add_sub", "chan": "subscribed"}[kind]
+    acts = {1: 1, 2: 0, 3: 1} if kind != "sel" else {1: 1, 2: 0, 3: 0}
     progs = [{"c1": [S("add_sub", "s2"), S(reg, "s1"), S("unsub", "s1"), S("unsub", "s1")],
               "c2": [D(1), D(2)] + ([D(3)] if tier != "quick" else []) + STOP}]
-    return _i("life_%s_%s" % (kind, pol), progs, {1: 1, 2: 0, 3: 1}, cap=2,
+    return _i("life_%s_%s" % (kind, pol), progs, acts, cap=2,
               subs={"s1": {"kind": kind, "cap": 1, "pol": pol}, "s2": {"kind": "direct"}})
 
 
@@ -291,15 +296,16 @@ def table(pid, tier):
         T = dict(mc=[(i, inv, []) for i in insts], gen=[(i, 500 if q else 4000) for i in insts[:3 if q else 10]],
                  free=[(i, 40 if q else 200) for i in insts])
     elif pid == "C14":
-        insts = [iterator(tier, False)] + ([] if q else [iterator(tier, True)])
+        insts = [iterator(tier, False), iterator(tier, True)]
         inv = ["C14_Stream", "C14_Detached", "C13_NoDeadlock"]
-        T = dict(mc=[(i, inv, []) for i in insts], gen=[(insts[0], 1500 if q else 20000)],
-                 free=[(insts[0], 150 if q else 1000)])
+        T = dict(mc=[(i, inv, []) for i in insts], gen=[(i, 800 if q else 20000) for i in insts],
+                 free=[(i, 100 if q else 1000) for i in insts])
     elif pid == "C15":
-        insts = [stop_race(tier, "block", 3)] + ([] if q else [stop_race(tier, "oldest", 3)])
+        insts = [stop_race(tier, "block", 3), stop_race(tier, "block", 4)] + \
+            ([] if q else [stop_race(tier, "oldest", 3), stop_race(tier, "block", 5)])
         inv = ["C04_Barrier", "C04_ErrNeverReduced", "C10_Flush"]
-        T = dict(mc=[(i, inv, ["C04_Final"]) for i in insts], gen=[(insts[0], 1200 if q else 15000)],
-                 free=[(i, 100 if q else 600) for i in insts])
+        T = dict(mc=[(i, inv, ["C04_Final"]) for i in insts], gen=[(i, 700 if q else 15000) for i in insts[:2]],
+                 free=[(i, 80 if q else 600) for i in insts])
     elif pid == "C18":
         insts = [burst(tier, "oldest", 1), middleware(tier, 1), effects(tier, 0), stop_race(tier, "latest", 0)]
         inv = ["C18_Balance", "C06_Conservation"]
